@@ -223,6 +223,17 @@ impl Prop for C20 {
                     }
                 }
                 let mut r = Rng::keyed(seed, &[20, hash_str(ty), hash_str(transport)]);
+                // many simultaneous bad clients (limits on in-flight handshakes show only then)
+                for (count, mix_kinds) in [(40usize, false), (24, true)] {
+                    let group: Vec<Value> = (0..count)
+                        .map(|i| {
+                            let off = (i * 7 + r.below(5)) % n;
+                            let beh = if mix_kinds { BEHAVIOURS[i % 3] } else { "stop" };
+                            json!([off, beh])
+                        })
+                        .collect();
+                    v.push(json!({"kind": "scenario", "ty": ty, "transport": transport, "bad": group, "seed": mix(seed ^ count as u64)}));
+                }
                 r.shuffle(&mut plan);
                 let mut i = 0;
                 let mut k = 1usize;
@@ -283,7 +294,7 @@ impl Prop for C20 {
             ("good_handshakes_completed_while_a_staller_was_open", 100),
             ("accept_failures_reported", 200),
             ("transport/ipc", 40),
-            ("max_simultaneous_bad_clients", 8),
+            ("max_simultaneous_bad_clients", 40),
         ]
     }
 
